@@ -322,6 +322,21 @@ V("ES1-enumerate-from-zero", "C04", "ES1",
 V("CS1-counter-incremented-twice", "C04", "CS1",
   ("reader.py", "        for segment_index, segment in enumerate(self._segments[start_segment:end_segment + 1], start_segment):\n            self._verify_segment_start(segment)\n",
    "        segment_index = start_segment - 1\n        for segment in self._segments[start_segment:end_segment + 1]:\n            segment_index += 1\n            self._verify_segment_start(segment)\n            if segment.num_chunks == 0:\n                segment_index += 1\n                continue\n"))
+V("BD1-full-chunks-assumed", "C04", "BD1",
+  ("reader.py", "                # Account for segments where the final chunk is truncated\n                final_chunk_size = (segment_end_index - segment_start_index) % chunk_size\n                final_chunk_size = chunk_size if final_chunk_size == 0 else final_chunk_size\n                if num_values_to_trim >= final_chunk_size:\n                    num_chunks -= 1\n                    num_values_to_trim -= final_chunk_size\n\n", ""))
+V("BD1-stop-chunk-ignores-offset", "C04", "BD1",
+  ("tdms_segment.py", "        stop_chunk = self.num_chunks if num_chunks is None else num_chunks + chunk_offset\n", "        stop_chunk = self.num_chunks if num_chunks is None else num_chunks\n"))
+V("BD1-index-fetch-to-segment-end", "C04", "BD1",
+  ("reader.py", "        chunk_data = next(segment.read_raw_data_for_channel(self._file, channel_path, chunk_index, 1))\n",
+   "        chunk_data = next(segment.read_raw_data_for_channel(self._file, channel_path, chunk_index))\n"))
+V("BD1-benign-divmod", "C04", None,
+  ("reader.py", "                chunk_offset = num_values_to_skip // chunk_size\n                remaining_values_to_skip = num_values_to_skip % chunk_size\n",
+   "                (chunk_offset, remaining_values_to_skip) = divmod(num_values_to_skip, chunk_size)\n"))
+V("GD1-keeps-scanning-after-channel", "C19", "GD1",
+  ("tdms_segment.py", "                current_position = file.tell()\n                break\n", "                current_position = file.tell()\n"))
+V("GD1-reads-other-channels-to-skip", "C19", "GD1",
+  ("tdms_segment.py", "            elif number_values == obj.number_values:\n                # Seek over data for other channel data\n                current_position += obj.data_size\n",
+   "            elif number_values == obj.number_values:\n                # Seek over data for other channel data\n                file.seek(current_position)\n                file.read(obj.data_size)\n                current_position += obj.data_size\n"))
 V("CS2-scaler-sliced-differently", "C04", "CS2",
   ("reader.py", "            scale_id: d[skip:len(d) - trim]\n", "            scale_id: d[skip:len(d)]\n"))
 V("NT1-length-truthiness", "C04", "NT1",
